@@ -3,7 +3,7 @@
    checked model must report an out-of-range access). *)
 From Coq Require Import ZArith List Bool QArith PrimFloat.
 Import ListNotations.
-Require Import PV.Base.Ops PV.Model.Relax PV.Model.RelaxChk PV.Model.RelaxRun PV.Model.GraphAlg PV.Model.Split PV.Model.SplitChk PV.Model.Aggregate PV.Model.AggChk.
+Require Import PV.Base.Ops PV.Model.Relax PV.Model.RelaxChk PV.Model.RelaxRun PV.Model.GraphAlg PV.Model.Split PV.Model.SplitChk PV.Model.Aggregate PV.Model.AggChk PV.Model.BfsChk.
 Open Scope Z_scope.
 
 Section Run.
@@ -47,6 +47,15 @@ Definition agg_chk_case (c : nat * Z * list (list Z) * option (list Z * list Z *
            end in
   match r, expected with
   | Some (x, y, k), Some (x', y', k') => list_eqb Z.eqb x x' && list_eqb Z.eqb y y' && (k =? k')
+  | None, None => true
+  | _, _ => false
+  end.
+
+(* breadth_first_search twin: (n, [Ap; Aj; order0], seed, expected (reached count :: order prefix ++ level)) *)
+Definition bfs_chk_case (c : Z * list (list Z) * Z * option (list Z)) : bool :=
+  let '(n, ls, seed, expected) := c in
+  match bfs_chk n (zln ls 0) (zln ls 1) seed (zln ls 2), expected with
+  | Some (order, level, N), Some ex => list_eqb Z.eqb (N :: firstn (Z.to_nat N) order ++ level) ex
   | None, None => true
   | _, _ => false
   end.
